@@ -61,6 +61,8 @@ def _check(name, m, mk_input, out_dim, where):
     rebuilt = type(m)(**m.init_dict)
     try:
         rebuilt.load_state_dict(m.state_dict(), strict=True)
+    except TimeoutError:
+        raise
     except Exception as e:
         return f"{where}: the constructor description does not rebuild an architecture that accepts the current weights: {str(e)[:160]}"
     c = m.clone()
@@ -82,6 +84,10 @@ def walk(payload):
     for name, mk, mk_input, out_dim in _blocks():
         try:
             base = mk()
+        except TimeoutError:
+            raise
+        except TimeoutError:
+            raise
         except Exception as e:
             return {"status": "fail", "cases": cases, "detail": f"{name}: constructing the block raised {type(e).__name__}: {str(e)[:160]}"}
         methods = sorted(base.mutation_methods)
@@ -101,6 +107,8 @@ def walk(payload):
                     done.append(meth)
                     cases += 1
                     msg = _check(name, m, mk_input, out_dim, f"{name} after {done}")
+                except TimeoutError:
+                    raise
                 except Exception as e:
                     msg = f"{name} after {done + [meth]}: {type(e).__name__}: {str(e)[:160]}"
                 if msg:
